@@ -182,10 +182,6 @@ func (p *parser) value(t reflect.Type) reflect.Value {
 			if err != nil {
 				panic(err)
 			}
-			if roMode && len(b) > 0 {
-				v.Set(reflect.ValueOf(roBytes(b)).Convert(t))
-				return v
-			}
 			s := reflect.MakeSlice(t, len(b), len(b)+extra)
 			reflect.Copy(s, reflect.ValueOf(b))
 			v.Set(s)
